@@ -37,7 +37,11 @@ fn set_nonblock(fd: i32) {
 
 /// Run `path` with exactly the given argv and envp byte strings (no NUL inside; anything else goes),
 /// feed `stdin` and collect stdout/stderr until both are closed, then reap.
-pub fn run(path: &str, argv: &[Vec<u8>], envp: &[Vec<u8>], stdin: &[u8], limit: Duration) -> Result<Outcome, LaunchError> {
+///
+/// `ids = Some((uid, gid))` (only meaningful when the driver is root): the probe is started by
+/// fork + setgid + setuid + execve instead of posix_spawn, so that AT_UID and AT_GID are two
+/// different non-zero numbers.
+pub fn run(path: &str, argv: &[Vec<u8>], envp: &[Vec<u8>], stdin: &[u8], limit: Duration, ids: Option<(u32, u32)>) -> Result<Outcome, LaunchError> {
     let cpath = CString::new(path).expect("probe path");
     let cargs: Vec<CString> = argv.iter().map(|a| CString::new(a.clone()).expect("NUL in argument")).collect();
     let cenv: Vec<CString> = envp.iter().map(|a| CString::new(a.clone()).expect("NUL in env entry")).collect();
@@ -51,30 +55,77 @@ pub fn run(path: &str, argv: &[Vec<u8>], envp: &[Vec<u8>], stdin: &[u8], limit: 
     let (err_r, err_w) = pipe2().inspect_err(|_| close_all(&[in_r, in_w, out_r, out_w]))?;
 
     let mut pid: libc::pid_t = 0;
-    let rc = unsafe {
-        let mut fa: libc::posix_spawn_file_actions_t = core::mem::zeroed();
-        libc::posix_spawn_file_actions_init(&mut fa);
-        // dup2 clears O_CLOEXEC on the target; the pipe ends themselves close on exec
-        libc::posix_spawn_file_actions_adddup2(&mut fa, in_r, 0);
-        libc::posix_spawn_file_actions_adddup2(&mut fa, out_w, 1);
-        libc::posix_spawn_file_actions_adddup2(&mut fa, err_w, 2);
-        let mut at: libc::posix_spawnattr_t = core::mem::zeroed();
-        libc::posix_spawnattr_init(&mut at);
-        // the Rust runtime ignores SIGPIPE and that disposition would be inherited
-        let mut def: libc::sigset_t = core::mem::zeroed();
-        libc::sigemptyset(&mut def);
-        libc::sigaddset(&mut def, libc::SIGPIPE);
-        libc::posix_spawnattr_setsigdefault(&mut at, &def);
-        libc::posix_spawnattr_setflags(&mut at, libc::POSIX_SPAWN_SETSIGDEF as libc::c_short);
-        let rc = libc::posix_spawn(&mut pid, cpath.as_ptr(), &fa, &at, pargs.as_ptr(), penv.as_ptr());
-        libc::posix_spawn_file_actions_destroy(&mut fa);
-        libc::posix_spawnattr_destroy(&mut at);
+    let rc = if let Some((uid, gid)) = ids {
+        // exec failures travel back over a close-on-exec pipe
+        let (st_r, st_w) = pipe2().inspect_err(|_| close_all(&[in_r, in_w, out_r, out_w, err_r, err_w]))?;
+        let child = unsafe { libc::fork() };
+        if child == 0 {
+            // child: async-signal-safe calls only
+            unsafe {
+                let mut e = 0i32;
+                libc::signal(libc::SIGPIPE, libc::SIG_DFL);
+                if libc::dup2(in_r, 0) < 0 || libc::dup2(out_w, 1) < 0 || libc::dup2(err_w, 2) < 0 {
+                    e = *libc::__errno_location();
+                }
+                if e == 0 && (libc::setgroups(0, core::ptr::null()) != 0 || libc::setgid(gid) != 0 || libc::setuid(uid) != 0) {
+                    e = *libc::__errno_location();
+                }
+                if e == 0 {
+                    libc::execve(cpath.as_ptr(), pargs.as_ptr() as *const *const libc::c_char, penv.as_ptr() as *const *const libc::c_char);
+                    e = *libc::__errno_location();
+                }
+                let b = e.to_le_bytes();
+                libc::write(st_w, b.as_ptr() as *const libc::c_void, 4);
+                libc::_exit(127);
+            }
+        }
+        close_all(&[st_w]);
+        let mut rc = 0;
+        if child < 0 {
+            rc = std::io::Error::last_os_error().raw_os_error().unwrap_or(libc::EAGAIN);
+        } else {
+            pid = child;
+            let mut b = [0u8; 4];
+            let n = loop {
+                let n = unsafe { libc::read(st_r, b.as_mut_ptr() as *mut libc::c_void, 4) };
+                if n >= 0 || std::io::Error::last_os_error().raw_os_error() != Some(libc::EINTR) {
+                    break n;
+                }
+            };
+            if n == 4 {
+                rc = i32::from_le_bytes(b).max(1);
+                let mut status = 0;
+                unsafe { libc::waitpid(child, &mut status, 0) };
+            }
+        }
+        close_all(&[st_r]);
         rc
+    } else {
+        unsafe {
+            let mut fa: libc::posix_spawn_file_actions_t = core::mem::zeroed();
+            libc::posix_spawn_file_actions_init(&mut fa);
+            // dup2 clears O_CLOEXEC on the target; the pipe ends themselves close on exec
+            libc::posix_spawn_file_actions_adddup2(&mut fa, in_r, 0);
+            libc::posix_spawn_file_actions_adddup2(&mut fa, out_w, 1);
+            libc::posix_spawn_file_actions_adddup2(&mut fa, err_w, 2);
+            let mut at: libc::posix_spawnattr_t = core::mem::zeroed();
+            libc::posix_spawnattr_init(&mut at);
+            // the Rust runtime ignores SIGPIPE and that disposition would be inherited
+            let mut def: libc::sigset_t = core::mem::zeroed();
+            libc::sigemptyset(&mut def);
+            libc::sigaddset(&mut def, libc::SIGPIPE);
+            libc::posix_spawnattr_setsigdefault(&mut at, &def);
+            libc::posix_spawnattr_setflags(&mut at, libc::POSIX_SPAWN_SETSIGDEF as libc::c_short);
+            let rc = libc::posix_spawn(&mut pid, cpath.as_ptr(), &fa, &at, pargs.as_ptr(), penv.as_ptr());
+            libc::posix_spawn_file_actions_destroy(&mut fa);
+            libc::posix_spawnattr_destroy(&mut at);
+            rc
+        }
     };
     close_all(&[in_r, out_w, err_w]);
     if rc != 0 {
         close_all(&[in_w, out_r, err_r]);
-        return Err(LaunchError::Spawn(rc, "posix_spawn"));
+        return Err(LaunchError::Spawn(rc, if ids.is_some() { "fork+setgid+setuid+execve" } else { "posix_spawn" }));
     }
 
     set_nonblock(in_w);
